@@ -1,4 +1,4 @@
-//go:build all || c05 || c08 || c19
+//go:build all || c05 || c06 || c08 || c19
 
 package props
 
@@ -203,6 +203,25 @@ func runC05(r *core.Run) {
 			}
 		}
 	})
+	// files carrying embedded profiles in every placement / order / damage class of C06: whatever
+	// happens to the profile, the basic metadata is the header's
+	{
+		gens := c06Files(r.Seed, false)
+		core.ParallelFor(len(gens), 16, func(i int) {
+			if i%2 != 0 {
+				return
+			}
+			if f, ok := gens[i](); ok && len(f.Bytes) < 300000 {
+				g := f.genFile
+				g.Name = "with-profile: " + g.Name
+				one(g)
+			}
+		})
+	}
+	// JPEG with zero lines in the frame header (legal with a DNL segment, ITU T.81 B.2.5)
+	for _, w := range []int{1, 640, 65535} {
+		one(c05JPEG("dnl-height-0", w, 0, w%2 == 0, 3, jpegSamplings[0], rng, 2))
+	}
 	// structures straddling the loaders' read-ahead buffer; segments and chunks above 32 KiB
 	for _, f := range boundaryFiles(r.Seed, true) {
 		one(f)
